@@ -13,6 +13,7 @@ import (
 	"sync"
 	"sync/atomic"
 	"time"
+	_ "verif/h/duoc"
 
 	"github.com/biogo/biogo/alphabet"
 	"github.com/biogo/biogo/io/featio/bed"
